@@ -41,6 +41,17 @@ pub enum BvmOp {
     ShrinkToFit,
     /// `dst.clone_from(&bv); bv = dst` where dst holds `dst_len` bits (ones if `dst_ones`)
     CloneFromInto { dst_len: u16, dst_ones: bool },
+    /// `extend` from a bool iterator with an inexact size hint (`loose::loose_iter`)
+    ExtendLoose { bools: Vec<bool>, mode: u8 },
+    /// `extend` with `len` pseudo-random bits in one call (one bit in `2^sparse_lg` set), from an
+    /// exact (mode % 4 == 0) or loose iterator: single calls of more than 2^18 bits
+    ExtendPattern { seed: u64, len: u32, sparse_lg: u8, mode: u8 },
+    /// `extend` with positions from an iterator with an inexact size hint
+    ExtendPositionsLoose { fracs: Vec<u16>, slack: u16, mode: u8 },
+    /// the bits collected into a new BitVectorMut through a loose iterator
+    RebuildFromLooseIter(u8),
+    /// the bits collected into a BitVector through a loose iterator, then `into()` BitVectorMut
+    ViaLooseBitVector(u8),
 }
 
 #[derive(Clone, Debug, PartialEq, Eq, Hash, Serialize, Deserialize)]
@@ -70,6 +81,7 @@ impl Prop for C08 {
     fn id(&self) -> &'static str { "C08" }
     fn strategy(&self, tier: Tier, _b: &str) -> BoxedStrategy<BvmCase> {
         let maxops = if tier == Tier::Quick { 120 } else { 600 };
+        let big_extend: u32 = if tier == Tier::Quick { 300_000 } else { 1_100_000 };
         let start = prop_oneof![
             3 => Just(BvmStart::New),
             1 => Just(BvmStart::Default),
@@ -94,6 +106,12 @@ impl Prop for C08 {
             1 => Just(BvmOp::RebuildFromIter),
             1 => Just(BvmOp::ShrinkToFit),
             2 => (prop_oneof![0u16..3000, Just(512u16), Just(1024), Just(0)], any::<bool>()).prop_map(|(dst_len, dst_ones)| BvmOp::CloneFromInto { dst_len, dst_ones }),
+            2 => (bools(600), any::<u8>()).prop_map(|(bools, mode)| BvmOp::ExtendLoose { bools, mode }),
+            1 => (any::<u64>(), prop_oneof![9 => 0u32..3000, 1 => prop_oneof![Just(262_144u32), Just(262_145), 262_000u32..=263_000, 262_145u32..=big_extend]], 0u8..=10, any::<u8>())
+                .prop_map(|(seed, len, sparse_lg, mode)| BvmOp::ExtendPattern { seed, len, sparse_lg, mode }),
+            1 => (proptest::collection::vec(any::<u16>(), 0..20), prop_oneof![Just(0u16), Just(1), 0u16..1500], any::<u8>()).prop_map(|(fracs, slack, mode)| BvmOp::ExtendPositionsLoose { fracs, slack, mode }),
+            1 => any::<u8>().prop_map(BvmOp::RebuildFromLooseIter),
+            1 => any::<u8>().prop_map(BvmOp::ViaLooseBitVector),
         ];
         let nops = prop_oneof![3 => 0usize..=12, 3 => 0usize..=maxops / 3, 1 => 0usize..=maxops];
         (start, nops.prop_flat_map(move |k| proptest::collection::vec(op.clone(), k..=k)), any::<u64>())
@@ -217,6 +235,49 @@ impl Prop for C08 {
                     note("extend(bools)", b.len() as u128, 0, 0);
                     bv.extend(b.iter().copied());
                     m.extend(b.iter().copied());
+                }
+                BvmOp::ExtendLoose { bools, mode } => {
+                    note("extend(loose bools)", bools.len() as u128, *mode as u128, 0);
+                    bv.extend(crate::loose::loose_iter(bools.clone(), *mode));
+                    m.extend(bools.iter().copied());
+                }
+                BvmOp::ExtendPattern { seed, len, sparse_lg, mode } => {
+                    let mut r = crate::util::Rng::new(*seed);
+                    let mask = (1u64 << (*sparse_lg).min(16)) - 1;
+                    let b: Vec<bool> = (0..*len).map(|_| r.next_u64() & mask == 0).collect();
+                    note("extend(pattern)", *len as u128, *mode as u128, 0);
+                    m.extend(b.iter().copied());
+                    if mode % 4 == 0 {
+                        bv.extend(b);
+                    } else {
+                        bv.extend(crate::loose::loose_iter(b, *mode));
+                    }
+                }
+                BvmOp::RebuildFromLooseIter(mode) => {
+                    let bits: Vec<bool> = bv.iter().collect();
+                    let nb: BitVectorMut = crate::loose::loose_iter(bits, *mode).collect();
+                    ensure!(nb == bv, "after op {}: a vector collected from iter() behind a loose size hint (mode {mode}) differs (==) from the original", k + 1);
+                    bv = nb;
+                }
+                BvmOp::ViaLooseBitVector(mode) => {
+                    let bits: Vec<bool> = bv.iter().collect();
+                    let im: BitVector = crate::loose::loose_iter(bits, *mode).collect();
+                    ensure!(im.len() == m.len(), "after op {}: BitVector collected behind a loose size hint (mode {mode}) has len {}, expected {}", k + 1, im.len(), m.len());
+                    bv = im.into();
+                }
+                BvmOp::ExtendPositionsLoose { fracs, slack, mode } => {
+                    let span = n + *slack as usize;
+                    let ps: Vec<usize> = fracs.iter().map(|&f| (f as usize * span.max(1)) >> 16).collect();
+                    note("extend(loose positions)", ps.len() as u128, *mode as u128, 0);
+                    for &p in &ps {
+                        if p < m.len() {
+                            interior_pos = true;
+                        } else {
+                            m.resize(p + 1, false);
+                        }
+                        m[p] = true;
+                    }
+                    bv.extend(crate::loose::loose_iter(ps, *mode));
                 }
                 BvmOp::ExtendPositions { fracs, slack } => {
                     let span = n + *slack as usize;
